@@ -26,10 +26,8 @@ theorem getConn_userDicts (H : Heap) (k : Nat) (comps : Option (List Str)) :
     obtain ⟨_, _, _, _, _, _, _, _, hd, _⟩ := mkConn_spec hmk
     exact hd.2
 
-theorem request_dicts (H : Heap) (c : Nat) (args : Args) : ∃ y, (request H c args).1.dicts = H.dicts ++ y := by
-  rcases (request_effect H c args).dicts with h | ⟨d', h⟩
-  · exact ⟨[], by simp [h]⟩
-  · exact ⟨[d'], h⟩
+theorem request_dicts (H : Heap) (c : Nat) (args : Args) : ∃ y, (request H c args).1.dicts = H.dicts ++ y :=
+  (request_effect H c args).dicts
 
 theorem mkConn_conns_le {H H' : Heap} {t own plain n} (h : mkConn H t own plain = some (H', n)) :
     H.conns.length ≤ H'.conns.length ∧ H'.dicts = H.dicts := by
@@ -155,9 +153,10 @@ theorem optParams_ext {H H' : Heap} (y : List Dict) (h : H'.dicts = H.dicts ++ y
 
 def eraseId (s : Sent) : Sent := { s with genId := none }
 
-/-- the request sent through `c`, the number taken from the id counter left out -/
+/-- the request sent through `c` (the outer request itself, `requestFlat`: nesting adapters of the chain send
+their own, separate requests), the number taken from the id counter left out -/
 def sentCore (H : Heap) (c : Nat) (args : Args) : Except Err Sent :=
-  match (request H c args).2 with
+  match (requestFlat H c args).2 with
   | .ok s => .ok (eraseId s)
   | .error e => .error e
 
